@@ -9,6 +9,7 @@ import (
 	"fmt"
 	"io"
 	"math/big"
+	"os"
 	"os/exec"
 	"strconv"
 	"strings"
@@ -461,6 +462,9 @@ func (s *Solver) roundTrip(hard time.Duration) ([]string, bool) {
 	case r := <-ch:
 		return r.lines, r.ok
 	case <-time.After(hard):
+		if d := os.Getenv("GOSYM_DUMP"); d != "" {
+			os.WriteFile(d, []byte(text), 0o644)
+		}
 		s.cmd.Process.Kill()
 		<-ch
 		s.cmd.Wait()
